@@ -9,6 +9,7 @@ import (
 	"os"
 	"strconv"
 	"strings"
+	"time"
 )
 
 type genFunc func(g *Gen)
@@ -44,6 +45,19 @@ func main() {
 	if tier != "replay" {
 		g.PendingPath = os.Args[4] + ".pending"
 		os.Remove(g.PendingPath)
+		limit := int64(900)
+		if v, err := strconv.ParseInt(os.Getenv("VERIF_STALL_SECONDS"), 10, 64); err == nil && v > 0 {
+			limit = v
+		}
+		go func() {
+			for {
+				time.Sleep(5 * time.Second)
+				if t := pendingSince.Load(); t != 0 && time.Now().Unix()-t > limit {
+					fmt.Fprintf(os.Stderr, "fatal error: harness watchdog: the pending case has not returned for %d s\n", limit)
+					os.Exit(2)
+				}
+			}
+		}()
 	}
 	if corpus := os.Getenv("VERIF_CORPUS"); corpus != "" {
 		g.corpus(corpus)
